@@ -10,8 +10,49 @@ import KafkaVerif.Spec.Layout
 import KafkaVerif.Lemmas.FetchDecoder
 import KafkaVerif.Model.ReaderLoop
 import KafkaVerif.Model.ReaderFront
+import KafkaVerif.Gen.DecoderFacts
 
 namespace KV.C02
+
+/-! ## R. Regenerated tie: the structural facts of the source the model relies on
+
+`Gen/DecoderFacts.lean` is re-extracted (go/ast, `go/extract/decoder.go`) from message_reader.go, batch.go, conn.go and
+reader.go of the tree under test on every run; the theorems below compare it with what the model assumes, so an
+edit of one of these places breaks `lake build` (and the theorems of §1–§3 are re-stated for `currentVariant`). -/
+
+/-- which model variant a set of source facts describes -/
+def variantOfFacts (f : Gen.DecoderFacts) : Option Variant :=
+  if f.skipEmptyLoop ∧ f.batchEndOnEmpty ∧ f.batchEndOnLast ∧ f.batchEndApplied ∧
+     f.jumpGuard = "errors.Is(batch.err, io.EOF) && batch.msgs.lengthRemain == 0 && batch.lastOffset >= batch.offset" ∧
+     f.oorSeeksConn then some .fixed
+  else if !f.skipEmptyLoop ∧ !f.batchEndOnEmpty ∧ !f.batchEndOnLast ∧ !f.batchEndApplied ∧
+     f.jumpGuard = "errors.Is(batch.err, io.EOF) && batch.msgs.lengthRemain == 0 && batch.lastOffset != -1" ∧
+     !f.oorSeeksConn then some .legacy
+  else none
+
+/-- the variant of the code as it is now (`legacy` also stands for "not recognised": then `current_code_is_fixed` fails) -/
+def currentVariant : Variant := (variantOfFacts Gen.decoderFacts).getD .legacy
+
+/-- the repaired shapes are all in place: the empty-batch skip loop in readMessage, the three `batchEnd` sites, the
+monotone jump guard, the conn seek in the OffsetOutOfRange branch -/
+theorem current_code_is_fixed : currentVariant = .fixed := by decide
+
+/-- header sizes and payload offsets are the ones the token sizes and the `lengthRemain` accounting of the model use -/
+theorem decoder_constants :
+    Gen.decoderFacts.hdrV2 = (Tok.h2 0 0 0 false 0).size ∧
+    Gen.decoderFacts.hdrV1 = (Tok.h1 1 0 false).size ∧
+    Gen.decoderFacts.hdrV0 = (Tok.h1 0 0 false).size ∧
+    Gen.decoderFacts.v2PayloadOffset = 49 ∧ Gen.decoderFacts.v2BatchRemainOffset = 49 ∧
+    Gen.decoderFacts.hdrV2 = Gen.decoderFacts.v2PayloadOffset + 12 ∧
+    Gen.decoderFacts.v1LengthRemain = 1 := by decide
+
+/-- the remaining statements the model transcribes: next offset = offset + 1 (Batch and reader loop), the skip loop
+of ReadMessage compares with the conn offset strictly, `highWaterMark == offset` gives the empty reader, Close stores
+the batch offset into the conn -/
+theorem decoder_statements :
+    Gen.decoderFacts.nextOffsetPlus = 1 ∧ Gen.decoderFacts.readerNextOffsetPlus = 1 ∧
+    Gen.decoderFacts.skipBelow = "batch.conn != nil && offset < batch.connOffset()" ∧
+    Gen.decoderFacts.emptyWhenHwmEqOffset = true ∧ Gen.decoderFacts.closeStoresOffset = true := by decide
 
 /-! ## 0. The defects of the pinned code (`Variant.legacy`), kept as theorems about the legacy model
 
@@ -157,6 +198,24 @@ example : (fetchSeq .fixed d15Layout 112 100 [100, 100]).1 = (allRecords d15Layo
 theorem iterated_fetch_legacy_counterexample :
     (fetchSeq .legacy d15Layout 112 100 [100, 100, 100, 100]) = ([(100, 7), (101, 8)], 102) := by decide
 
+/-- §1 and §2 for the code as extracted now -/
+theorem single_fetch_current (items : List Item) (nb : Int) (hnb : 0 ≤ nb) (hwf : LWF nb items)
+    (o hwm : Int) (ho : 0 ≤ o) (hsafe : Safe o items) (hne : hwm ≠ o) (cut : Int) (expired : Bool) :
+    let res := readAll currentVariant expired o hwm (responseTokens items cut)
+    res.1 = (containedRecords items cut).filter (fun r => o ≤ r.1) ∧ res.2.2 ≠ .desync ∧
+    (∀ r ∈ allRecords items, o ≤ r.1 → r.1 < res.2.1 → r ∈ res.1) := by
+  rw [current_code_is_fixed]
+  have h := single_fetch items nb hnb hwf o hwm ho hsafe hne cut expired
+  exact ⟨h.1, h.2.1, h.2.2.1⟩
+
+theorem iterated_fetch_current (items : List Item) (nb : Int) (hnb : 0 ≤ nb) (hwf : LWF nb items) (hwm start : Int)
+    (hs : 0 ≤ start) (budgets : List Nat) :
+    let res := fetchSeq currentVariant items hwm start budgets
+    start ≤ res.2 ∧ (∀ r ∈ res.1, r ∈ allRecords items ∧ start ≤ r.1 ∧ r.1 < res.2) ∧
+    (∀ r ∈ allRecords items, start ≤ r.1 → r.1 < res.2 → r ∈ res.1) ∧ res.1.Pairwise (fun a b => a.1 < b.1) := by
+  rw [current_code_is_fixed]
+  exact iterated_fetch items nb hnb hwf hwm start hs budgets
+
 /-! ## 3. The Reader's loop (reader.go run / initialize / read) -/
 
 /-- `restart_offset`: every fault (connection cut after any prefix of a response, NotLeaderForPartition,
@@ -188,7 +247,8 @@ example : initializeRL { offset := 107 } 100 115 = some { offset := 107, connOpe
 /-- `out_of_range_seeks` (D3 repaired): OffsetOutOfRange below the log start moves the position *and the connection*
 to the first offset -/
 theorem out_of_range_seeks (s : RL) (hwm first last : Int) (h : s.offset < first) :
-    onAnswer .fixed s hwm first last (.err 1) = .go { s with offset := first, connOff := first } := by
+    onAnswer currentVariant s hwm first last (.err 1) = .go { s with offset := first, connOff := first } := by
+  rw [current_code_is_fixed]
   simp [onAnswer, h]
 
 /-- D3 on the legacy code: the connection keeps its stale offset, so the same fetch is repeated forever -/
